@@ -1,6 +1,6 @@
 """C01 - in first-match mode the first matching categorising rule decides merchant/category/subcategory.
 
-Exhaustive: every sequence of <= K distinct rules over a 13-block .rules alphabet x 3 preambles, and every
+Exhaustive: every sequence of <= K distinct rules over a 15-block .rules alphabet x 3 preambles, and every
 sequence of <= K rows over an 11-row legacy-CSV alphabet; each file x every transaction of a 72-element
 alphabet, through MerchantEngine.match and through the get_all_rules/get_transforms/normalize_merchant
 path that `tally up` uses (files really written to disk and loaded).
@@ -13,8 +13,8 @@ from mc.checks import rules_common as R
 
 PROPERTY = "C01"
 LEVEL = "exploration"
-RULE = ("cases = every ordered sequence of 1..K distinct blocks (K=3 quick, 4 thorough) over 13 .rules blocks "
-        "(10 categorising: contains/regex/and-not/amount/top-level variable/let/field/source/date; 2 tag-only; 1 unevaluable) "
+RULE = ("cases = every ordered sequence of 1..K distinct blocks (K=3 quick, 4 thorough) over 15 .rules blocks "
+        "(10 categorising: contains/regex/and-not/amount/top-level variable/let/field/source/date; 2 tag-only; 1 unevaluable; 1 never-matching rule whose let: shadows a global; 1 rule reading a name only other rules bind) "
         "x 3 preambles (none, variable, description transform), plus every ordered sequence of 1..K rows over 11 legacy CSV rows "
         "(regex, lookahead, alternation, char class, amount/date/month modifiers, tag-only row, invalid regex); each file is run on 72 "
         "transactions (8 descriptions x 3 amounts x 3 date/field/source contexts) through 2-3 public entry points. "
@@ -40,6 +40,11 @@ RULES = [
     {"name": "TagLarge", "match": "amount > 100", "tags": "large"},
     {"name": "TagRide", "match": 'contains("UBER")', "tags": "ride, {source}"},
     {"name": "Broken", "match": "field.nope == 1", "category": "Bad", "subcategory": "Bad"},
+    # a never-matching rule whose let: shadows the top-level variable is_large and binds m
+    {"name": "LetShadow", "let": [("is_large", "amount > 100000"), ("m", '"77"')], "match": 'is_large and contains("NOPE")',
+     "category": "Never"},
+    # reads a name that only other rules' let: bindings define; unknown here, so it can never match
+    {"name": "UsesM", "match": 'm == "77"', "category": "LeakCat"},
 ]
 PREAMBLES = [
     [],
